@@ -70,13 +70,13 @@ def _deps_digest(depfile):
     return h.hexdigest()
 
 
-def compile_tu(src, obj, flags):
+def compile_tu(src, obj, flags, cxx=None):
     """Compile one translation unit unless an object built by the same command from byte-identical
     inputs exists.  Returns (ok, compiler output)."""
     os.makedirs(os.path.dirname(obj), exist_ok=True)
     dep = obj + ".d"
     stamp = obj + ".stamp"
-    cmd = [CXX] + flags + ["-MMD", "-MF", dep, "-c", src, "-o", obj]
+    cmd = [cxx or CXX] + flags + ["-MMD", "-MF", dep, "-c", src, "-o", obj]
     key = sha(" ".join(cmd))
     if os.path.exists(obj) and os.path.exists(stamp):
         old = open(stamp).read().split()
@@ -92,10 +92,11 @@ def compile_tu(src, obj, flags):
     return True, p.stderr
 
 
-def build_driver(name, sources, nitro_sources=(), flags=(), ldflags=(), sanitize=True, allow_fail=False):
+def build_driver(name, sources, nitro_sources=(), flags=(), ldflags=(), sanitize=True, allow_fail=False, cxx=None):
     """sources: paths under /verif/harness; nitro_sources: paths relative to NITRO_SRC.
     Returns path of the executable.  Raises Infra on compile errors unless allow_fail, in which
-    case (None, stderr) is returned."""
+    case (None, stderr) is returned.  cxx: another compiler than the default (g++: the compiler the project's own
+    build uses; evaluation order of call arguments and overload resolution details differ from clang's)."""
     bdir = os.path.join(BUILD, srctag(), name)
     os.makedirs(bdir, exist_ok=True)
     # checks may be started in parallel and share drivers (opt_driver, log_driver_*): one builder at a time per driver
@@ -103,20 +104,20 @@ def build_driver(name, sources, nitro_sources=(), flags=(), ldflags=(), sanitize
     lockf = open(os.path.join(bdir, ".lock"), "w")
     fcntl.flock(lockf, fcntl.LOCK_EX)
     try:
-        return _build_driver_locked(name, bdir, sources, nitro_sources, flags, ldflags, sanitize, allow_fail)
+        return _build_driver_locked(name, bdir, sources, nitro_sources, flags, ldflags, sanitize, allow_fail, cxx)
     finally:
         fcntl.flock(lockf, fcntl.LOCK_UN)
         lockf.close()
 
 
-def _build_driver_locked(name, bdir, sources, nitro_sources, flags, ldflags, sanitize, allow_fail):
+def _build_driver_locked(name, bdir, sources, nitro_sources, flags, ldflags, sanitize, allow_fail, cxx=None):
     fl = BASE_FLAGS + (SAN_FLAGS if sanitize else []) + list(flags) + [
         "-I" + os.path.join(NITRO_SRC, "include"), "-I" + HARNESS]
     tus = [(os.path.join(HARNESS, s), os.path.join(bdir, "h_" + s.replace("/", "_") + ".o")) for s in sources]
     tus += [(os.path.join(NITRO_SRC, s), os.path.join(bdir, "n_" + s.replace("/", "_") + ".o")) for s in nitro_sources]
     t0 = time.time()
     with ThreadPoolExecutor(max_workers=NCPU) as ex:
-        res = list(ex.map(lambda t: compile_tu(t[0], t[1], fl), tus))
+        res = list(ex.map(lambda t: compile_tu(t[0], t[1], fl, cxx), tus))
     errs = [r[1] for r in res if not r[0]]
     if errs:
         if allow_fail:
@@ -125,9 +126,9 @@ def _build_driver_locked(name, bdir, sources, nitro_sources, flags, ldflags, san
     exe = os.path.join(bdir, name)
     objs = [t[1] for t in tus]
     lstamp = exe + ".lstamp"
-    lkey = sha(" ".join(objs) + " ".join(ldflags) + "".join(open(o + ".stamp").read() for o in objs))
+    lkey = sha((cxx or CXX) + " ".join(objs) + " ".join(ldflags) + "".join(open(o + ".stamp").read() for o in objs))
     if not (os.path.exists(exe) and os.path.exists(lstamp) and open(lstamp).read() == lkey):
-        cmd = [CXX] + (SAN_FLAGS if sanitize else []) + objs + list(ldflags) + ["-o", exe]
+        cmd = [cxx or CXX] + (SAN_FLAGS if sanitize else []) + objs + list(ldflags) + ["-o", exe]
         p = subprocess.run(cmd, capture_output=True, text=True)
         if p.returncode != 0:
             if allow_fail:
@@ -156,9 +157,25 @@ def try_compile(name, code, flags=()):
 _run_counter = [0]
 
 
-def run_tlc(module, cfg, *, workers=NCPU, simulate=None, depth=None, env=None, timeout=1100, xmx="8g",
-            deque=False, coverage=False, deadlock=None, seed=None, collect=("CASE", "EDGE"), sink=None,
-            extra=()):
+def run_tlc(module, cfg, **kw):
+    """TLC with one retry: a tool failure (unexpected exit code: JVM killed or starved on a loaded machine, ...) is only
+    reported (Infra, exit 2) if it repeats; the first failure is appended to out/tlc_failures.log."""
+    try:
+        return _run_tlc_once(module, cfg, **kw)
+    except Infra as e:
+        os.makedirs(OUT, exist_ok=True)
+        with open(os.path.join(OUT, "tlc_failures.log"), "a") as f:
+            f.write("%s pid=%d %s/%s\n%s\n\n" % (time.strftime("%F %T"), os.getpid(), module, cfg, str(e)[-3000:]))
+        for f in (kw.get("sink") or {}).values():
+            f.seek(0)
+            f.truncate()
+        log("TLC tool failure on %s, retrying once" % module)
+        return _run_tlc_once(module, cfg, **kw)
+
+
+def _run_tlc_once(module, cfg, *, workers=NCPU, simulate=None, depth=None, env=None, timeout=1100, xmx="8g",
+                  deque=False, coverage=False, deadlock=None, seed=None, collect=("CASE", "EDGE"), sink=None,
+                  extra=()):
     """Runs TLC on SPEC/<module>.tla with SPEC/<cfg>. Returns a dict:
        rc, ok (no violation, no error), violated (name or None), generated, distinct, lines{tag: [json..]},
        coverage {action: taken}, out (tail of raw output).
